@@ -38,6 +38,8 @@ import PsutilModel.Proofs.C01Rdb
 import PsutilModel.Proofs.C01Pid0
 import PsutilModel.Proofs.C01Stat
 import PsutilModel.Spec.C01Stat
+import PsutilModel.Proofs.C01Kill
+import PsutilModel.Model.C01KillGen
 import PsutilModel.Model.C01Gen
 namespace Psutil.C01
 open Spec
@@ -865,5 +867,74 @@ theorem C01_first_rpar_space_counterexample :
   · rw [hA]; decide
   · rw [C01_stat_identity_any_comm holderA (by decide), C01_stat_identity_any_comm holderC (by decide)]
     decide
+
+/-! ## The pid argument of EVERY kill(2) (seeded round C01-8)
+
+"No psutil call ever signals PID 0 or a negative PID (which the OS would treat as a whole process group)" — for the
+calls that take a caller-chosen integer (`psutil.pid_exists(n)`, reached from wherever a PID is probed) and for every
+other `os.kill` call site of the package, signal 0 included: kill(2) addresses the same targets whatever the signal.
+Model: the call graph of Model/C01Kill.lean as extracted (`killSites`, `killRoots`); spec: Spec/C01Kill.lean. -/
+
+open Kill in
+/-- **kcfg_good** (obligation on the extracted call graph `Gen.C01.killSites` / `killRoots`).  Every site hands on the
+    function's own PID; no call chain is longer than the fuel of the walk; and from every public entry point, for every
+    sign class its PID can take (any integer for a caller-chosen argument; zero or positive for the PID of a Process
+    object, whose constructor refuses negative numbers), an `os.kill` call site is reached for POSITIVE PIDs only.
+    Breaks when a guard in front of a probe / signal path is removed, weakened, or moved behind the call. -/
+theorem kcfg_good : Kill.goodB Kill.kcfg = true := by decide
+
+open Kill in
+/-- **C01_no_group_kill_any_entry**.  For EVERY integer `p` (negative, zero, positive, any size) handed to ANY public
+    entry point of the package's kill(2) call graph — for the methods of a Process object: every `p` the constructor
+    lets through —, every kill(2) the call issues has a positive pid argument: no process group, not "every process",
+    whatever the signal number (the existence probe `os.kill(pid, 0)` included). -/
+theorem C01_no_group_kill_any_entry (r : String × List Kill.Cls) (hr : r ∈ Kill.kcfg.roots) (p : Int)
+    (hp : Kill.clsOf p ∈ r.2) :
+    Kill.NoGroupKill (Kill.killsOf Kill.kcfg (Kill.fuel Kill.kcfg) r.1 p) :=
+  Kill.noGroupKill_of_good kcfg_good hr p hp
+
+/-- **C01_pid_exists_never_probes_group**.  `psutil.pid_exists(p)` for every integer `p`: the only kill(2) it can
+    issue is the probe of the positive PID `p` itself — nothing for `p ≤ 0`. -/
+theorem C01_pid_exists_never_probes_group (p : Int) :
+    Kill.NoGroupKill (Kill.killsOf Kill.kcfg (Kill.fuel Kill.kcfg) "__init__.py:pid_exists" p)
+      ∧ (p ≤ 0 → Kill.killsOf Kill.kcfg (Kill.fuel Kill.kcfg) "__init__.py:pid_exists" p = []) := by
+  have hroot : (("__init__.py:pid_exists", Kill.Cls.all) : String × List Kill.Cls) ∈ Kill.kcfg.roots := by decide
+  refine ⟨C01_no_group_kill_any_entry _ hroot p (Kill.clsOf_mem_all p), ?_⟩
+  intro hp
+  match hk : Kill.killsOf Kill.kcfg (Kill.fuel Kill.kcfg) "__init__.py:pid_exists" p with
+  | [] => rfl
+  | k :: _ =>
+    have hmem : k ∈ Kill.killsOf Kill.kcfg (Kill.fuel Kill.kcfg) "__init__.py:pid_exists" p := by simp [hk]
+    have h1 := (Kill.killsOf_sound _ _ _ _ _ hmem).1
+    have h2 := C01_no_group_kill_any_entry _ hroot p (Kill.clsOf_mem_all p) k hmem
+    omega
+
+/-- the clause is not vacuous: a positive PID IS probed (once), and the signal path of an object is an entry point -/
+example : Kill.killsOf Kill.kcfg (Kill.fuel Kill.kcfg) "__init__.py:pid_exists" 7 = [7] := by decide
+example : Kill.killsOf Kill.kcfg (Kill.fuel Kill.kcfg) "__init__.py:Process._send_signal" 7 = [7] := by decide
+example : Kill.killsOf Kill.kcfg (Kill.fuel Kill.kcfg) "__init__.py:Process._send_signal" 0 = [] := by decide
+
+/-- WHAT-IF: the same graph with the public probe's guard behind the call (the site is reached for every class) -/
+def Kill.kcfgProbeFirst : Kill.KCfg :=
+  { Kill.kcfg with sites := Kill.kcfg.sites.map fun s =>
+      if s.fn == "__init__.py:pid_exists" then { s with reach := Kill.Cls.all } else s }
+
+/-- full statement for an arbitrary call graph: what `C01_no_group_kill_any_entry` says of `kcfg` -/
+def NoGroupKill_AnyEntry_Full (c : Kill.KCfg) : Prop :=
+  ∀ r ∈ c.roots, ∀ p : Int, Kill.clsOf p ∈ r.2 → Kill.NoGroupKill (Kill.killsOf c (Kill.fuel c) r.1 p)
+
+/-- **C01_probe_before_guard_counterexample** (WHAT-IF).  With the sign test of `psutil.pid_exists` evaluated after
+    the platform probe, `pid_exists(-1)` issues kill(-1, 0) — every process the caller may signal — and
+    `pid_exists(-7)` probes process group 7; the obligation fails and the full statement is refuted. -/
+theorem C01_probe_before_guard_counterexample :
+    Kill.killsOf Kill.kcfgProbeFirst (Kill.fuel Kill.kcfgProbeFirst) "__init__.py:pid_exists" (-1) = [-1]
+    ∧ Kill.killsOf Kill.kcfgProbeFirst (Kill.fuel Kill.kcfgProbeFirst) "__init__.py:pid_exists" (-7) = [-7]
+    ∧ Kill.goodB Kill.kcfgProbeFirst = false
+    ∧ ¬ NoGroupKill_AnyEntry_Full Kill.kcfgProbeFirst := by
+  refine ⟨by decide, by decide, by decide, ?_⟩
+  intro h
+  have := h ("__init__.py:pid_exists", Kill.Cls.all) (by decide) (-1) (by decide) (-1) (by decide)
+  omega
+
 
 end Psutil.C01
